@@ -52,6 +52,9 @@ def gen_case(rng, n):
             out.append(o)
         elif k < 76:
             atts = sorted({f"F{1 + rng.below(max(1, nf + 1))}" for _ in range(rng.below(3))})
+            if rng.chance(1, 3):
+                # a URL which is not an upload of this server, anywhere in the list
+                atts.insert(rng.below(len(atts) + 1), rng.choice(["raw:http://example.com/pic.png", "raw:/other/path/x", "raw:ftp://h/y"]))
             npub += 1
             out.append(f"pub S1 T1 C{npub}" + (f" att={','.join(atts)}" if atts else ""))
         elif k < 82:
@@ -192,7 +195,7 @@ def monitor(ops, outs):
             if gone:
                 fails.append(f"`{w[0]}` removed the uploads {sorted(gone)}")
             if w[0] == "pub" and code == "202":
-                listed = kv.get("att", "").split(",") if kv.get("att") else []
+                listed = [a for a in (kv.get("att", "").split(",") if kv.get("att") else []) if not a.startswith("raw:")]
                 ever = {f"F{k}" for k in range(1, 1 + max([int(x[1:]) for x in list(pre) + list(st.get("ever", set())) if x[1:].isdigit()] + [0]))}
                 dead = [a for a in listed if a not in pre and a in ever]
                 for a in listed:
